@@ -43,6 +43,8 @@ type World struct {
 	MakeReq func(i int, a *Asm, tops []messaging.Port, il uint64) messaging.Port
 	// OnBuilt is called once the assembly exists and before the run starts.
 	OnBuilt func(a *Asm)
+	// AllowOverlap lets the (single) requester keep overlapping requests in flight.
+	AllowOverlap bool
 	// NoEngineHook leaves the engine without the harness's event-counting hook
 	// (no event cap, no AfterEvent): the unobserved baseline of C33.
 	NoEngineHook bool
@@ -136,6 +138,12 @@ func writeData(req, ord int, op Op) ([]byte, []bool) {
 }
 
 func (r *Requester) conflicts(op Op) bool {
+	if r.w.AllowOverlap {
+		// a single requester on one connection: requests arrive in issue order, so
+		// the model fixed at issue is exact even for overlapping requests in flight
+		return false
+	}
+
 	for i := 0; i < op.Size; i++ {
 		if r.w.inflight[op.Addr+uint64(i)] > 0 {
 			return true
